@@ -16,10 +16,16 @@
 // {one, two} caller values under the shared key, on every transport and kind.
 // Metadata keys are case-insensitive: the handler has to find all the caller's
 // values and the credential's value under the lower-cased key.
+//
+// Plus call-option targets reused across a sequence of calls (reuse.go): one
+// peer.Peer, one header MD and one trailer MD variable handed to every call of
+// every ordered pair (and triples) of calls over the transports and kinds,
+// versus fresh targets; after each call the targets describe that call.
 package main
 
 import (
 	"context"
+	"crypto/tls"
 	"errors"
 	"fmt"
 	"io"
@@ -65,6 +71,11 @@ type caseT struct {
 	// Merge, when set, replaces the fixed credential / caller metadata of
 	// Creds="both", CallerMD="some" by a member of the key-case grammar
 	Merge *mergeT `json:"merge,omitempty"`
+	// Tag, when set (sequences with reused call-option targets, reuse.go), makes
+	// the handler of this call set headers {hdr-<tag>:<tag>, call:<tag>} and
+	// trailers {tlr-<tag>:<tag>, call:<tag>}, so that every call of a sequence
+	// has response metadata of its own
+	Tag string `json:"tag,omitempty"`
 }
 
 // mergeT: the logical metadata is always caller {a:[1,2], shared:[caller-v(,caller-w)]}
@@ -254,6 +265,37 @@ type seen struct {
 	auth    string // "", "tls", "tls-incomplete", or the AuthType of something else
 }
 
+// connID identifies a TLS connection: keying material exported for a fixed
+// label is the same at both ends of a connection and differs between any two
+// connections (also to the same server). "" when there is none to be had.
+func connID(st *tls.ConnectionState) string {
+	if st == nil || !st.HandshakeComplete {
+		return ""
+	}
+	b, err := st.ExportKeyingMaterial("EXPERIMENTAL verif c13", nil, 16)
+	if err != nil {
+		return ""
+	}
+	return fmt.Sprintf("%x", b)
+}
+
+func authConnID(ai credentials.AuthInfo) (id string) {
+	defer func() {
+		if recover() != nil {
+			id = ""
+		}
+	}()
+	switch t := ai.(type) {
+	case credentials.TLSInfo:
+		return connID(&t.State)
+	case *credentials.TLSInfo:
+		if t != nil {
+			return connID(&t.State)
+		}
+	}
+	return ""
+}
+
 func authKind(ai credentials.AuthInfo) string {
 	switch t := ai.(type) {
 	case nil:
@@ -291,11 +333,19 @@ func (s *seen) record(ctx context.Context) {
 	}
 }
 
-func service(s *seen) *grpc.ServiceDesc {
+func service(s *seen, tag string) *grpc.ServiceDesc {
+	hdrs, tlrs := metadata.Pairs("hdr", "v"), metadata.MD(nil)
+	if tag != "" {
+		hdrs = metadata.Pairs("hdr", "v", "hdr-"+tag, tag, "call", tag)
+		tlrs = metadata.Pairs("tlr-"+tag, tag, "call", tag)
+	}
 	stream := func(clientStreams bool) common.StreamFn {
 		return func(str grpc.ServerStream) error {
 			s.record(str.Context())
-			_ = str.SetHeader(metadata.Pairs("hdr", "v"))
+			_ = str.SetHeader(hdrs)
+			if tlrs != nil {
+				str.SetTrailer(tlrs)
+			}
 			for {
 				var in wrapperspb.StringValue
 				err := str.RecvMsg(&in)
@@ -315,7 +365,10 @@ func service(s *seen) *grpc.ServiceDesc {
 	svc := &common.Svc{Name: "t.S",
 		Unary: map[string]common.UnaryFn{"U": func(ctx context.Context, dec func(interface{}) error) (interface{}, error) {
 			s.record(ctx)
-			_ = grpc.SetHeader(ctx, metadata.Pairs("hdr", "v"))
+			_ = grpc.SetHeader(ctx, hdrs)
+			if tlrs != nil {
+				_ = grpc.SetTrailer(ctx, tlrs)
+			}
 			var in wrapperspb.StringValue
 			if err := dec(&in); err != nil {
 				return nil, err
@@ -349,6 +402,7 @@ type env struct {
 	cur        http.Handler
 	lastRemote string
 	lastTLS    bool
+	lastConn   string // connID of the TLS connection the last request arrived on
 	servers    map[string]*httptest.Server
 }
 
@@ -357,6 +411,7 @@ func (e *env) ServeHTTP(w http.ResponseWriter, r *http.Request) {
 	h := e.cur
 	e.lastRemote = r.RemoteAddr
 	e.lastTLS = r.TLS != nil
+	e.lastConn = connID(r.TLS)
 	e.mu.Unlock()
 	h.ServeHTTP(w, r)
 }
@@ -441,6 +496,14 @@ type obsT struct {
 	Reply      string   `json:"reply,omitempty"`
 	hPeerNil   bool
 	err        error
+	// connID of the TLS connection as the HTTP server saw it, and of the TLS
+	// info in the grpc.Peer target ("" when unknown); different per run, so not
+	// part of any report
+	serverConn string
+	cPeerConn  string
+	// Targets: what every call-option target set handed to the call holds once
+	// the call is over (reuse.go); empty for the single-call grammar
+	Targets []targetObs `json:"targets,omitempty"`
 }
 
 func opDesc(op string) (string, *grpc.StreamDesc) {
@@ -455,11 +518,13 @@ func opDesc(op string) (string, *grpc.StreamDesc) {
 	return "/t.S/U", nil
 }
 
-func run(e *env, c caseT) obsT { return runCtx(e, c, nil) }
+func run(e *env, c caseT) obsT { return runCtx(e, c, nil, nil) }
 
 // runCtx runs one call; base, when given, is the caller's context (sequences
-// share one), else it is made from c.CallerMD.
-func runCtx(e *env, c caseT, base context.Context) (o obsT) {
+// share one), else it is made from c.CallerMD. tgs, when given, are the
+// caller's own peer/header/trailer variables to pass as call options (all of
+// them, in this order) instead of the fresh ones c.PeerOpt / c.HdrOpt ask for.
+func runCtx(e *env, c caseT, base context.Context, tgs []*targetSet) (o obsT) {
 	front := func(h http.Handler) http.Handler {
 		if c.Reject == "front-503" {
 			return http.HandlerFunc(func(w http.ResponseWriter, r *http.Request) {
@@ -469,7 +534,7 @@ func runCtx(e *env, c caseT, base context.Context) (o obsT) {
 		return h
 	}
 	s := &seen{}
-	desc := service(s)
+	desc := service(s, c.Tag)
 	var cc grpc.ClientConnInterface
 	var crt *countRT
 	var cleanup func()
@@ -499,7 +564,7 @@ func runCtx(e *env, c caseT, base context.Context) (o obsT) {
 		srv.RegisterService(desc, common.Impl{})
 		e.mu.Lock()
 		e.cur = front(srv)
-		e.lastRemote = ""
+		e.lastRemote, e.lastConn = "", ""
 		e.mu.Unlock()
 		ts := e.server(c.Transport)
 		tr := ts.Client().Transport
@@ -567,12 +632,15 @@ func runCtx(e *env, c caseT, base context.Context) (o obsT) {
 		opts = append(opts, grpc.PerRPCCredentials(cr))
 	}
 	var pr peer.Peer
-	if c.PeerOpt {
+	if c.PeerOpt && tgs == nil {
 		opts = append(opts, grpc.Peer(&pr))
 	}
 	var hdr metadata.MD
-	if c.HdrOpt {
+	if c.HdrOpt && tgs == nil {
 		opts = append(opts, grpc.Header(&hdr))
+	}
+	for _, t := range tgs {
+		opts = append(opts, grpc.Peer(t.pr), grpc.Header(t.hdr), grpc.Trailer(t.tlr))
 	}
 
 	func() {
@@ -631,14 +699,18 @@ func runCtx(e *env, c caseT, base context.Context) (o obsT) {
 	o.HandlerRan, o.HandlerMD, o.HPeerOK, o.HPeerAddr, o.HPeerAuth, o.hPeerNil = s.n, s.md, s.peerOK, s.addr, s.auth, s.addrNil
 	s.mu.Unlock()
 	e.mu.Lock()
-	o.Remote = e.lastRemote
+	o.Remote, o.serverConn = e.lastRemote, e.lastConn
 	e.mu.Unlock()
-	if c.PeerOpt {
+	if c.PeerOpt && tgs == nil {
 		if pr.Addr != nil {
 			o.CPeerSet = true
 			o.CPeerAddr = pr.Addr.String()
 		}
 		o.CPeerAuth = authKind(pr.AuthInfo)
+		o.cPeerConn = authConnID(pr.AuthInfo)
+	}
+	for _, t := range tgs {
+		o.Targets = append(o.Targets, t.observe())
 	}
 	if cr != nil {
 		o.CredCalls = [2]int64{atomic.LoadInt64(&cr.nRequire), atomic.LoadInt64(&cr.nGet)}
@@ -838,8 +910,23 @@ func check0(c caseT, o obsT) (fs []finding) {
 
 // peerOptFindings: what the grpc.Peer target has to hold once the call is over.
 func peerOptFindings(c caseT, o obsT, suffix string) (fs []finding) {
+	if !c.PeerOpt {
+		return nil
+	}
+	return peerTargetFindings(c, o, o.CPeerSet, o.CPeerAddr, o.CPeerAuth, o.cPeerConn, suffix)
+}
+
+// connCompared counts the evaluations of the TLS-info clause in which the
+// connection identity was available at both ends (so "of this connection" was
+// really decided).
+var connCompared int
+
+// peerTargetFindings: the clauses about one grpc.Peer target (set: it has an
+// address; addr, auth: what it holds) after a call of case c observed as o.
+func peerTargetFindings(c caseT, o obsT, set bool, addr, auth, conn, suffix string) (fs []finding) {
 	var f finding
-	if c.PeerOpt {
+	o.CPeerSet, o.CPeerAddr, o.CPeerAuth = set, addr, auth
+	{
 		f = finding{clause: "client-peer-address" + suffix}
 		switch {
 		case !o.CPeerSet || o.CPeerAddr == "":
@@ -859,8 +946,24 @@ func peerOptFindings(c caseT, o obsT, suffix string) (fs []finding) {
 		fs = append(fs, f)
 		if isTLS(c.Transport) {
 			f = finding{clause: "client-peer-tls-info" + suffix}
-			if o.CPeerAuth != "tls" {
+			if conn != "" && o.serverConn != "" {
+				connCompared++
+			}
+			if !strings.HasPrefix(o.CPeerAuth+"{", "tls{") {
 				f.fail, f.detail = "no-tls-authinfo", fmt.Sprintf("connection uses TLS but the grpc.Peer target's AuthInfo is %q (want credentials.TLSInfo of the completed handshake)", o.CPeerAuth)
+			} else if conn != "" && o.serverConn != "" && conn != o.serverConn {
+				// both ends of one TLS connection export the same keying material,
+				// two connections never do
+				f.fail, f.detail = "tls-info-of-another-connection", "the grpc.Peer target holds TLS info, but not of the connection this call's request travelled on (keying material exported from the target's tls.ConnectionState differs from what the HTTP server exports for the request's connection)"
+			}
+			fs = append(fs, f)
+		}
+		if isHTTP(c.Transport) || c.Transport == "grpc-go" {
+			// "TLS authentication info whenever the connection uses TLS": a
+			// cleartext connection must not be reported as TLS-authenticated
+			f = finding{clause: "client-peer-no-tls-info-on-cleartext" + suffix}
+			if strings.HasPrefix(o.CPeerAuth, "tls") {
+				f.fail, f.detail = "tls-authinfo-on-cleartext", fmt.Sprintf("the connection is cleartext (base URL %s) but the grpc.Peer target's AuthInfo is %q: the call is reported as TLS-authenticated", o.BaseURL, o.CPeerAuth)
 			}
 			fs = append(fs, f)
 		}
@@ -1256,9 +1359,11 @@ func (gr *grouper) report(rep *vlib.Reporter, prefix, everywhere string) {
 
 func guarded(e *env, c caseT) obsT { return guardedCtx(e, c, nil) }
 
-func guardedCtx(e *env, c caseT, base context.Context) obsT {
+func guardedCtx(e *env, c caseT, base context.Context) obsT { return guardedTg(e, c, base, nil) }
+
+func guardedTg(e *env, c caseT, base context.Context, tgs []*targetSet) obsT {
 	ch := make(chan obsT, 1)
-	go func() { ch <- runCtx(e, c, base) }()
+	go func() { ch <- runCtx(e, c, base, tgs) }()
 	select {
 	case o := <-ch:
 		return o
@@ -1275,6 +1380,36 @@ func main() {
 	e := &env{}
 
 	if p := common.Arg("replay"); p != "" {
+		var rq reuseT
+		if err := common.LoadReplay(p, &rq); err == nil && len(rq.ReuseSteps) > 0 {
+			ctl, cfs := runReuse(e, reuseT{Targets: "fresh", ReuseSteps: rq.ReuseSteps}, nil)
+			obs, fs := ctl, cfs
+			if rq.Targets != "fresh" {
+				obs, fs = runReuse(e, rq, ctl)
+			}
+			fmt.Printf("replay: sequence of calls, call-option targets (peer.Peer, header MD, trailer MD): %s\n", rq.Targets)
+			bad := false
+			for i, o := range obs {
+				fmt.Printf("  call %d %+v\n    observed: err=%q requests=%d handler ran=%d\n", i+1, rq.ReuseSteps[i], o.Err, o.Requests, o.HandlerRan)
+				for j, t := range o.Targets {
+					fmt.Printf("    target %q after the call: %+v\n", t.Name, t)
+					if rq.Targets != "fresh" && j == 0 && i < len(ctl) && len(ctl[i].Targets) > 0 {
+						fmt.Printf("    (control run, zero target, same call: %+v)\n", ctl[i].Targets[0])
+					}
+				}
+				for _, f := range fs {
+					if f.step == i && f.fail != "" {
+						fmt.Printf("    clause %s (target %s): FAILED %s: %s\n", f.clause, f.target, f.fail, f.detail)
+						bad = true
+					}
+				}
+			}
+			if bad {
+				fmt.Printf("VIOLATION property=C13 replay=%s\n", p)
+				os.Exit(1)
+			}
+			os.Exit(0)
+		}
 		var q seqT
 		if err := common.LoadReplay(p, &q); err == nil && len(q.Steps) > 0 {
 			obs, fs := runSeq(e, q)
@@ -1325,6 +1460,12 @@ func main() {
 		fmt.Fprintln(os.Stderr, "INCONCLUSIVE: oracle calibration:", err)
 		os.Exit(2)
 	}
+	calibratedReuse, err := calibrateReuse()
+	if err != nil {
+		fmt.Fprintln(os.Stderr, "INCONCLUSIVE: oracle calibration:", err)
+		os.Exit(2)
+	}
+	connCompared = 0
 	refRuns := 0
 	if rep.Tier == "thorough" {
 		for _, c := range cases("thorough") {
@@ -1350,6 +1491,25 @@ func main() {
 			for _, f := range fs {
 				if f.fail != "" {
 					fmt.Fprintf(os.Stderr, "INCONCLUSIVE: the oracle rejects grpc-go's own behaviour on sequence %+v: %s %s: %s\n", q, f.clause, f.fail, f.detail)
+					os.Exit(2)
+				}
+			}
+		}
+	}
+
+	if rep.Tier == "thorough" {
+		// reused call-option targets against grpc-go
+		for _, steps := range reuseSeqs("thorough", true) {
+			ctl, fs := runReuse(e, reuseT{Targets: "fresh", ReuseSteps: steps}, nil)
+			refRuns++
+			for _, mode := range reuseModes {
+				_, mfs := runReuse(e, reuseT{Targets: mode, ReuseSteps: steps}, ctl)
+				refRuns++
+				fs = append(fs, mfs...)
+			}
+			for _, f := range fs {
+				if f.fail != "" {
+					fmt.Fprintf(os.Stderr, "INCONCLUSIVE: the oracle rejects grpc-go's own behaviour on a sequence with reused call-option targets %+v: %s (target %s) %s: %s\n", steps, f.clause, f.target, f.fail, f.detail)
 					os.Exit(2)
 				}
 			}
@@ -1440,6 +1600,44 @@ func main() {
 
 	keyCaseSeq.report(rep, "C13|seq|ctx=key-case|", " for every key spelling / caller context construction of the key-case grammar, in both calls of the sequence")
 
+	// sequences of calls sharing the caller's call-option targets (reuse.go)
+	reuseG := newGrouper(reuseDimNames) // scope: the clause
+	nReuse, nReuseSeqs, nReuseCalls, reuseWritten := 0, 0, 0, map[string]bool{}
+	account := func(q reuseT, obs []obsT, fs []reuseFinding) {
+		nReuse++
+		evals++
+		nReuseCalls += len(obs)
+		known := 0 // calls after which the peer is known: a response arrived / the handler ran
+		for _, o := range obs {
+			if len(o.Targets) > 0 && (o.Requests > 0 || o.HandlerRan > 0) {
+				known++
+			}
+		}
+		if q.Targets != "fresh" && known >= 2 {
+			k := fmt.Sprintf("%+v", q)
+			reuseWritten[k], distinct[k] = true, true
+		}
+		for _, f := range fs {
+			clauseCount[f.clause]++
+			reuseG.add("reuse|"+f.clause, reuseDims(q, f), f.finding, q)
+		}
+	}
+	for _, steps := range reuseSeqs(rep.Tier, false) {
+		nReuseSeqs++
+		cq := reuseT{Targets: "fresh", ReuseSteps: steps}
+		ctl, cfs := runReuse(e, cq, nil)
+		account(cq, ctl, cfs)
+		for _, mode := range reuseModes {
+			q := reuseT{Targets: mode, ReuseSteps: steps}
+			obs, fs := runReuse(e, q, ctl)
+			account(q, obs, fs)
+			if mode == "reused" && len(steps) == 3 && steps[0].Transport == "https" && steps[1].Transport == "inproc" && isHTTP(steps[2].Transport) && steps[0].Op == "unary" && steps[1].Op == "bidi" && steps[2].Op == "unary" {
+				samples = append(samples, map[string]interface{}{"sequence": q, "observed": obs})
+			}
+		}
+	}
+	reuseG.report(rep, "C13|", " for every position / transport / kind / credentials / earlier calls the clause applies to")
+
 	for _, s := range e.servers {
 		s.CloseClientConnections()
 		s.Close()
@@ -1453,6 +1651,7 @@ func main() {
 			"Plus every sequence of 2 calls (thorough: also of 3) on ONE caller context, each call from {in-process, http, https} x {unary, bidi} x {no creds, creds, creds requiring security}, context made by NewOutgoingContext or NewOutgoingContext+AppendToOutgoingContext: per call the handler's metadata on keys {a,shared,tok} is exactly caller + that call's credential metadata, and the caller's MD object is unchanged. " +
 			"Plus the key-case grammar (81 shapes): spelling of the credential map's keys {lower, Capitalised, UPPER} x spelling of the caller's keys {lower, Capitalised, UPPER} x {caller has only key a (disjoint); caller also has the credential's key shared, with 1 or 2 values} x caller context built by {NewOutgoingContext(metadata.Pairs(keys as spelled)), AppendToOutgoingContext(keys as spelled) only, first value of each key by NewOutgoingContext(Pairs) and the rest appended}; logical content always caller {a:[1,2], shared:[caller-v(,caller-w)]}, credential {tok:t1, shared:cred-v}. Crossed with every transport x every op x {require security or not}; host spelling (IPv4:port) and peer/header options (peer only) are held at one value for these cases because they do not touch the metadata path (they are crossed with credentials in the main product). Clause key-case/metadata-merge: the handler finds all the caller's values and the credential's value under the LOWER-CASED key. " +
 			"Plus, for every caller part of the key-case grammar (27) x every ordered pair of credential key spellings (9) x {in-process, http, https}: a unary call then a bidi stream on ONE caller context, with the same exact-metadata and caller-MD-unchanged clauses. " +
+			"Plus call-option TARGETS reused across calls: the caller keeps ONE peer.Peer, ONE header MD and ONE trailer MD variable and passes them (grpc.Peer, grpc.Header, grpc.Trailer) to every call of a sequence. Steps: {in-process, http (recorder), https" + map[bool]string{true: ", http loopback, https with HTTP/2", false: ""}[rep.Tier == "thorough"] + "} x {unary, bidi" + map[bool]string{true: ", server-stream, client-stream", false: ""}[rep.Tier == "thorough"] + "} x {no credentials, credentials with metadata} plus, per HTTP transport and kind, a rejected call (unknown method: the server answers 404, no handler runs); EVERY ordered pair of steps, and every triple over {in-process, http, https" + map[bool]string{true: ", https with HTTP/2", false: ""}[rep.Tier == "thorough"] + "} x {unary, bidi} (credentials absent in the triples: the new dimension is swept around that base case there, it is crossed with credentials in the pairs). Every sequence is run in three modes: fresh zero targets for every call (control), one reused target set, and the reused set plus a fresh set passed to the same call. The handler of the i-th call sets headers {hdr:v, hdr-i:i, call:i} and trailers {tlr-i:i, call:i}. After each call every target set has to describe THAT call: address as for a single call; TLS info when that call's connection is TLS; no TLS info when it is cleartext; on the keys a handler of the sequence can set, exactly that call's headers and trailers; and (reused sets) address and auth info (kind; for TLS also version, cipher suite, negotiated protocol, SNI, number of peer certificates) equal to what the zero target of the same call of the control run got. " +
 			"Verdicts do not depend on Go's map iteration order: when two spellings of one key collide in a map either the caller's or the credential's values survive, and both outcomes violate the inclusion (and the exact) clause; the oracle calibration feeds both outcomes (and the complete one) to the clause for every shape before the run; each case is run once; the text of a report leaves out the observed values for these cases (--replay prints them). " +
 			"A case is non-trivial when the credential object was actually consulted (its RequireTransportSecurity/GetRequestMetadata call counters are > 0), or the grpc.Peer target was written, or the connection was TLS (so the TLS-info clause of the handler's peer applies); distinct by all case parameters.",
 		"clause_evaluations":          clauseCount,
@@ -1468,8 +1667,18 @@ func main() {
 			"rule":                     "distinct (transport, op, require, shape) where GetRequestMetadata was called and the handler ran, i.e. the merged metadata travelled to the handler; 'two spellings': the credential spells the shared key with upper-case letters and the caller has that key too (the grpc metadata package hands the caller's keys to the library lower-cased), so the library holds two spellings of one key when it merges",
 			"oracle_calibration_cases": calibrated,
 		},
-		"samples":    samples,
-		"exhaustive": true,
+		"reused_call_option_targets": map[string]interface{}{
+			"step_sequences":           nReuseSeqs,
+			"runs":                     nReuse,
+			"calls":                    nReuseCalls,
+			"modes":                    append([]string{"fresh"}, reuseModes...),
+			"distinct_reused_twice":    len(reuseWritten),
+			"rule":                     "distinct (mode, steps) runs with a reused target set in which at least two calls got as far as knowing their peer (a response arrived or the in-process handler ran), i.e. the library wrote into a target that an earlier call had already written",
+			"oracle_calibration_cases": calibratedReuse,
+		},
+		"tls_info_connection_identity_compared": connCompared,
+		"samples":                               samples,
+		"exhaustive":                            true,
 	}, []string{
 		"loopback TCP/TLS only where the real net/http + crypto/tls stack is the subject (reply.TLS, r.TLS, RemoteAddr); every case uses a fresh connection",
 		"in-process with credentials that require transport security: both refusing and accepting are taken as conforming (the statement only speaks about the HTTP base URL)",
@@ -1477,5 +1686,8 @@ func main() {
 		"metadata keys are case-insensitive (grpc-go lower-cases the keys of a credential's map and of the outgoing metadata; thorough runs the whole key-case grammar against grpc-go over bufconn and requires the oracle to accept it): the handler has to find the values under the lower-cased key however caller and credential spelled it",
 		"not in the grammar: a credential map that holds two spellings of the same key at once (grpc-go keeps only one of them); a caller metadata.MD literal with upper-case keys (grpc-go refuses the call: 'header key contains illegal characters') - the caller's spellings go through metadata.Pairs / AppendToOutgoingContext, which lower-case them in the grpc version the library is built with, so for the caller's side the spelling dimension exercises that package together with the library; the credential's map reaches the library as spelled",
 		"a credential whose GetRequestMetadata fails has to fail the call without the handler running (as grpc-go does); the error's type is not constrained",
+		"TLS info of a grpc.Peer target has to be that of the connection the call used: keying material exported (RFC 5705/8446 exporter, fixed label) from the target's tls.ConnectionState equals what the HTTP server exports for the connection the request arrived on; every call uses a connection (and handshake) of its own, so the TLS info of any earlier call, also one to the same server, is told apart; compared whenever both ends yield an exporter value (count in tls_info_connection_identity_compared)",
+		"a cleartext connection must not be reported with TLS info (the converse of 'TLS authentication info whenever the connection uses TLS'); other auth info on a cleartext or in-process call (grpc-go's insecure credentials report AuthType \"insecure\", the in-process channel reports \"inproc\") is accepted as long as a target that was used before ends up with the same as a zero target handed to the same call",
+		"reused call-option targets: every handler of these sequences sets at least one header and one trailer; a call whose handler sets no headers or no trailers at all (what a reused grpc.Header/grpc.Trailer target holds after such a call) is response-metadata delivery, the subject of C03, and not a member of this grammar; headers and trailers are compared on the keys the handlers can set (a transport may add keys of its own, e.g. content-type)",
 	}))
 }
